@@ -333,8 +333,32 @@ TFinalize ==
 \* the driver runs an explicit refresh right before every cancel, so `st` is the
 \* state the cancel batch starts from (the refresh inside owner::cancel_tx finds
 \* nothing left to do) and the rollback is judged on observed states only
+\* a RAW cancel (no refresh of the driver's before it): owner::cancel_tx refreshes first, so an entry whose transaction
+\* the chain has confirmed by then - its output is in the REAL chain's unspent set - is a confirmed one and the cancel must be
+\* refused; judged against the chain, not against the model
+ChainConfirmed(s, w, t, utxo) ==
+  LET e == s.w[w].txs[t] IN
+  \E k \in DOMAIN s.w[w].outs : /\ s.w[w].outs[k].tx = e.id /\ s.w[w].outs[k].acct = e.acct
+                                 /\ s.w[w].outs[k].st \in {"Unconfirmed", "Unspent"} /\ ~s.w[w].outs[k].cb
+                                 /\ OID(s, w, k) \in utxo
+IsRaw(e) == Has(e, "raw") /\ e.raw
+TCancelRaw ==
+  /\ IsEv("cancel") /\ IsRaw(E)
+  /\ LET e == E  w == e.w
+         a == [id |-> e.id, sl |-> e.sl]
+         m == CancelMatches(st, w, a)
+         utxo == ToSet(Rec[l].obs.utxo) IN
+     /\ (Ok(e) /\ Cardinality(m) = 1 /\ w \notin aux.dirty) =>
+           Check(~ChainConfirmed(st, w, CHOOSE x \in m : TRUE, utxo), "C05", "CancelRefused", e, "cancelled a transaction the chain had confirmed")
+     /\ (~Ok(e) /\ e.res \in {"err:notfound"}) => Check(S2.w[w].ctxs = st.w[w].ctxs, "C05", "CancelRefusedUnchanged", e, "raw")
+     /\ IF ~CheckM THEN TRUE
+        ELSE LET r == Cancel(st, w, a, aux.nodeUp) IN
+             /\ CheckMatch((r.res = "ok") = Ok(e), e, "Cancel:res:" \o r.res)
+             /\ MatchState(LastOr(r.steps, st), e, "Cancel")
+     /\ AccountIsolation(E, st, S2)
+     /\ Step(hv)
 TCancel ==
-  /\ IsEv("cancel")
+  /\ IsEv("cancel") /\ ~IsRaw(E)
   /\ LET e == E  w == e.w
          a == [id |-> e.id, sl |-> e.sl]
          m == CancelMatches(st, w, a) IN
@@ -706,7 +730,7 @@ TSkipped == /\ Skipped
 
 TInit == /\ l = 1 /\ st = [w |-> <<>>, chain |-> <<>>, pool |-> {}, body |-> <<>>, reg |-> <<>>, nrep |-> <<>>]
          /\ hv = EmptyHist({}) /\ aux = [nodeUp |-> TRUE, dirty |-> {}, pre |-> <<>>, hvpre |-> EmptyHist({}), ope |-> <<>>, fresh |-> {}, mustRevert |-> {}]
-TNext == \/ TReset \/ TInitSend \/ TLock \/ TReceive \/ TFinalize \/ TCancel \/ TPost \/ TMine \/ TNode
+TNext == \/ TReset \/ TInitSend \/ TLock \/ TReceive \/ TFinalize \/ TCancel \/ TCancelRaw \/ TPost \/ TMine \/ TNode
          \/ TRefresh \/ TAccount \/ TBuildCoinbase \/ TIssueInvoice \/ TProcessInvoice \/ TCrash \/ TTrunc \/ TFork \/ TRestore \/ TDiverge \/ TScan \/ TReopen \/ TBuildOutput \/ TMwixReq \/ TViewScan \/ TOther \/ TSkipped
 TSpec == TInit /\ [][TNext]_tvars
 
